@@ -90,7 +90,7 @@ func (s *StakingSmcUtil) CreateGenesisValidator(statedb *state.StateDB, header *
 
 	name := []byte(_name)
 	var arrName [32]byte
-	copy(arrName[:], name[:32])
+	copy(arrName[:], name)
 
 	if !k1 || !k2 || !k3 || !k4 {
 		panic("Error while parsing genesis validator params")
